@@ -945,6 +945,8 @@ class CallMixin:
         if body_fn is None:
             body_fn = lambda x: self.truth(self.apply_fn(lam, [Val(TRef(cls), x)], st, node), node)
         if self.S.ref_consts is not None:
+            if getattr(self, "ref_class", None) is not None:
+                return z3.And(*[zbool(body_fn(c)) for c in self.consts_of_class(cls)])
             return z3.And(*[zbool(body_fn(c)) for c in [self.S.null] + list(self.S.ref_consts)])
         x = self.qvar("o", self.S.Ref)
         self.binders.append((x, z3.BoolVal(True)))
@@ -1661,4 +1663,21 @@ class CallMixin:
                 st.env[n] = Val(TPoison("alias of %s.%s mutated in place" % key), None)
 
     def construct(self, cls, args, kwargs, st, node=None):
-        raise Unsupported("object construction %s(...)" % cls, node)
+        """object construction: a fresh reference (distinct from None and from every reference in scope), then __init__
+        through its contract (a constructor without contract is outside the subset)"""
+        if cls in self.src.classes and self.src.classes[cls].is_enum:
+            v = args[0]
+            return Val(TEnum(cls), self.coerce(v, TInt, node).z)
+        qual = cls + ".__init__"
+        c = self.contracts.get(qual)
+        if c is None:
+            raise Unsupported("object construction %s(...) without a contract for __init__" % cls, node)
+        r = self.fresh_val(TRef(cls), "new_" + cls)
+        self.assume(r.z != self.S.null, st)
+        self.assume(self.cls_of(r.z) == self.class_ids[cls], st)
+        for v in list(st.env.values()) + list((self.fn_old_env or {}).values()):
+            if v is not None and getattr(v.ty, "kind", None) == "Ref" and z3.is_expr(v.z):
+                self.assume(r.z != v.z, st)
+        self.fresh_objects.append(r.z)
+        self.call_function(qual, r, args, kwargs, st, node)
+        return r
